@@ -46,6 +46,12 @@ func checkC13(c *Ctx) {
 	c.Rule("C13-R13", "every Show looks at every cell: nothing but the running state stands between draw and the cell loop, or — if a flag does — everything that can make a cell dirty (force-dirty marker, unlock, content store) raises it (an unlocked region is repainted by the first Show after the unlock)")
 	c.Expect("C13-R13", 1)
 	checkCellLoopGate(c, p, "C13-R13", "tScreen")
+	c.Rule("C13-R14", "locked cells are never written: the terminal is wiped (clear flag) only on the application's explicit request, Sync; no other function raises the flag (a clear erases locked cells, which are not repainted while locked)")
+	c.Expect("C13-R14", 1)
+	checkClearOnlyOnRequest(c, p, "C13-R14", "tScreen")
+	c.Rule("C13-R15", "writes cell content only to changed cells: capability strings reach the frame buffer through terminfo's TPuts, which removes the $<n> padding markers (appended verbatim, vt100's cup and sgr0 print '$<5>' and '$<2>' over neighbouring cells)")
+	c.Expect("C13-R15", 1)
+	checkCapabilitiesThroughStripper(c, p, "C13-R15")
 	c.Rule("C13-R10", "a cell marked dirty (marker rune zero: SetDirty(true), Invalidate, UnlockCell) is reported dirty whatever it holds, also one nothing was ever stored in; combining runes are compared in full")
 	c.Expect("C13-R10", 2)
 	c.asRule("C08-R9", "C13-R10", func() { checkDirtyDecisions(c, p, "C08-R9") })
